@@ -184,6 +184,16 @@ def run_case(ctx, rep, case, base_dir, model_ok):
                                     lost_then_flipped.append(_ai)
                                 return r_
                             setattr(st_, mth, w_)
+            if env is not None and case.get("gate_requests"):
+                # scheduling points at S3 REQUEST granularity (a storage method may issue several requests)
+                prev_hook = env.fake.hook
+
+                def req_hook(phase, op, key, kw, _prev=prev_hook):
+                    if phase == "before" and S.actor() is not None:
+                        S.gate(f"s3.{op}")
+                    if _prev is not None:
+                        _prev(phase, op, key, kw)
+                env.fake.hook = req_hook
             restore = _patch_sleep(S)
             try:
                 with _NoBackoff(S):
